@@ -248,7 +248,7 @@ fn check_damage(w: &World, pre: &format::RawArchive, cx: &Cx, f: &str, d: Dmg, n
 }
 
 fn run(case: &Case, cx: &mut Cx) -> CaseResult {
-    let mut w = World::new(&cx.scratch, &case.hist.initial);
+    let mut w = World::for_history(&cx.scratch, &case.hist);
     for op in &case.hist.ops {
         let _ = w.apply(op);
     }
